@@ -6,14 +6,14 @@ VERIF = os.path.dirname(os.path.dirname(os.path.abspath(__file__)))
 CHECKS = {
  "C09": dict(
    category="proof",
-   text="Lean theorems (QSP/Properties/C09.lean, Sup.lean) prove for every coefficient list, lowest power, window and operation history that the executable model's operations are the ring operations of Mathlib's Laurent polynomials, and that the sup-norm certificate bounds the modulus on the whole circle. Each run re-checks the axiom audit and ties the model to /repo's LPoly by executing every operation of the real class next to the model on ~2 800 structured cases (zero operands, all windows, histories) compared in exact rationals.",
+   text="Lean theorems (QSP/Properties/C09.lean, Sup.lean) prove for every coefficient list, lowest power, window and operation history that the executable model's operations are the ring operations of Mathlib's Laurent polynomials, that the sup-norm certificate bounds the modulus on the whole circle, and (C09b.lean) on which stored power range every RESULT lives (product: the ranges add up, nothing is trimmed; sum: their union; negation / scalar multiple: unchanged; inversion: mirrored) with inversion and negation involutions on the stored representation. Each run re-checks the axiom audit and ties the model to /repo's LPoly by executing every operation of the real class next to the model on ~2 800 structured cases (zero operands, all windows, histories) compared in exact rationals (denotation AND stored range of each result; operands that are results of earlier operations).",
    note="Trusted: Lean kernel + Mathlib, axioms propext/Classical.choice/Quot.sound, the compiled model driver, the Python harness (float->Fraction, comparison bound 2^-45 relative). The model is hand-written; its tie to the code is the correspondence run (sampled inputs), not a proof about Python. inf_norm's 0.1% clause is decided per polynomial by the proven certificate, not as one closed theorem (Bernstein's inequality is not in Mathlib).",
    technique="Lean 4 proof of model = Laurent-polynomial ring + differential correspondence model vs LPoly",
    design="7/C09"),
 }
 CHECKS["C08"] = dict(
    category="proof",
-   text="Lean theorems (QSP/Properties/C08.lean) prove for all elements and all phase lists that mapping A + B*iX to [[A(w), iB(w)],[iB(1/w), A(1/w)]] over Mathlib's Laurent polynomials turns the model's product, sums, negation, conjugation and mixed products into the matrix operations, that the element built from any phase list is the ordered product R(phi_0) w R(phi_1) ... and is unitary, the read-out algebra and the sign gauge. Each run re-checks the axiom audit and ties the model to /repo's LAlg: every operator on ~2 000 random element pairs (zero components included), the builders on every length 1..60 against the exact product from proven cos/sin enclosures, and the angle read-outs through their defining relation.",
+   text="Lean theorems (QSP/Properties/C08.lean) prove for all elements and all phase lists that mapping A + B*iX to [[A(w), iB(w)],[iB(1/w), A(1/w)]] over Mathlib's Laurent polynomials turns the model's product, sums, negation, conjugation and mixed products into the matrix operations, that the element built from any phase list is the ordered product R(phi_0) w R(phi_1) ... and is unitary, the read-out algebra and the sign gauge, and (C08b.lean) that conjugating twice gives back the element's stored representation. Each run re-checks the axiom audit and ties the model to /repo's LAlg: every operator on ~2 000 random element pairs (zero components included; a third of them with operands that are themselves results of earlier real operations), the builders on every length 1..60 against the exact product from proven cos/sin enclosures, and the angle read-outs through their defining relation.",
    note="Trusted: Lean kernel + Mathlib, standard axioms, compiled model driver, Python harness. The numerical read-outs (numpy.angle) are validated through the defining relation on sampled inputs; the correspondence model<->code is sampled.",
    technique="Lean 4 proof of model = SU(2)-valued Laurent matrices + differential correspondence model vs LAlg",
    design="7/C08")
